@@ -8,8 +8,10 @@
    observations r .. r+wl-1; target_at y wl r h = y[(r+wl-1) + h]; n_windows n wl fh =
    n - wl - max fh + 1; enc = tabular (variable-major flat row) or time-series (panel) layout;
    train_X / train_t / train_T = the lag windows 0 .. n_windows-1 and their targets; last_obs = the
-   last wl observations of every variable.  The regressor (M, fit1, fitm, pred1, predm) is
-   universally quantified: any deterministic functions. *)
+   last wl observations of every variable.  zp = the variables as known at prediction time: zs
+   itself, or zs extended by the observations handed to update(.., update_params=False)
+   (`extend`).  The regressor (M, fit1, fitm, pred1, predm) is universally quantified: any
+   deterministic functions. *)
 From Coq Require Import ZArith List Bool.
 Require Import SkV.Lib.Base SkV.Lib.ZRange SkV.C05.Model SkV.C05.Proofs.
 Import ListNotations.
@@ -81,12 +83,12 @@ Print Assumptions C05_swt_rejects_iff_no_window.
    observation h steps after the window as target; every regressor is given the last wl
    observations; the forecast for step h is the output of the regressor fitted for step h *)
 Theorem C05_direct_data_flow : forall (M : Type) (fit1 : list xrow -> list Z -> M)
-  (pred1 : M -> xrow -> Z) sc zs wl fh, wf_zs zs -> 1 <= wl -> wf_fh fh ->
+  (pred1 : M -> xrow -> Z) sc zs zp wl fh, wf_zs zs -> 1 <= wl -> wf_fh fh ->
   let y := hd [] zs in
   let nw := n_windows (zlen y) wl fh in
   let X := train_X sc zs wl nw in
-  let xp := enc sc (last_obs zs wl) in
-  direct_run M fit1 pred1 sc zs wl fh =
+  let xp := enc sc (last_obs zp wl) in
+  direct_run M fit1 pred1 sc zs zp wl fh =
     if nw <=? 0 then Err else
     Ok (mkRun (map (fun h => Fit1 X (train_t y wl nw h)) fh)
               (map (fun i => (i, xp)) (zrange 0 (zlen fh) 1))
@@ -97,12 +99,12 @@ Print Assumptions C05_direct_data_flow.
 (* multioutput: one regressor fitted on the lag windows with the vector of all requested targets;
    it is given the last wl observations; the forecast is its output vector *)
 Theorem C05_multioutput_data_flow : forall (M : Type) (fitm : list xrow -> list (list Z) -> M)
-  (predm : M -> xrow -> list Z) sc zs wl fh, wf_zs zs -> 1 <= wl -> wf_fh fh ->
+  (predm : M -> xrow -> list Z) sc zs zp wl fh, wf_zs zs -> 1 <= wl -> wf_fh fh ->
   let y := hd [] zs in
   let nw := n_windows (zlen y) wl fh in
   let X := train_X sc zs wl nw in
-  let xp := enc sc (last_obs zs wl) in
-  multioutput_run M fitm predm sc zs wl fh =
+  let xp := enc sc (last_obs zp wl) in
+  multioutput_run M fitm predm sc zs zp wl fh =
     if nw <=? 0 then Err else
     Ok (mkRun [FitM X (train_T y wl nw fh)] [(0, xp)] (predm (fitm X (train_T y wl nw fh)) xp)).
 Proof. exact multioutput_flow. Qed.
@@ -121,22 +123,24 @@ Print Assumptions C05_predict_row_has_training_layout.
    its output is the prediction for step i+1 and is what is fed back; the forecast for step h is
    the output of call h (also for gapped horizons) *)
 Theorem C05_recursive_data_flow : forall (M : Type) (fit1 : list xrow -> list Z -> M)
-  (pred1 : M -> xrow -> Z) sc zs wl fh xfut, wf_zs zs -> 1 <= wl -> wf_fh fh ->
+  (pred1 : M -> xrow -> Z) sc zs zp wl fh xfut, wf_zs zs -> 1 <= wl -> wf_fh fh ->
+  wf_zs zp -> wl <= zlen (hd [] zp) ->
   let y := hd [] zs in
-  let n := zlen y in
-  let nw := n - wl in
+  let nw := zlen y - wl in
   let X := train_X sc zs wl nw in
   let t := train_t y wl nw 1 in
   let m := fit1 X t in
-  if nw <=? 0 then recursive_run M fit1 pred1 sc zs wl fh xfut = Err else
+  let yp := hd [] zp in
+  let n := zlen yp in
+  if nw <=? 0 then recursive_run M fit1 pred1 sc zs zp wl fh xfut = Err else
   exists steps,
-    recursive_run M fit1 pred1 sc zs wl fh xfut =
+    recursive_run M fit1 pred1 sc zs zp wl fh xfut =
       Ok (mkRun [Fit1 X t] (map (fun s => (0, fst s)) steps)
                 (map (fun h => snd (nth (Z.to_nat (h - 1)) steps dflt)) fh)) /\
     zlen steps = zlast fh /\
     forall i, 0 <= i < zlast fh ->
       nth (Z.to_nat i) steps dflt =
-        let ext := (y ++ map snd steps) :: map (fun p => fst p ++ snd p) (combine (tl zs) xfut) in
+        let ext := (yp ++ map snd steps) :: map (fun p => fst p ++ snd p) (combine (tl zp) xfut) in
         let x := enc sc (map (fun s => zslice s (n - wl + i) (n + i)) ext) in
         (x, pred1 m x).
 Proof. exact recursive_flow. Qed.
@@ -157,20 +161,21 @@ Print Assumptions C05_feedback_window_shape.
    i is given the last window followed by the outputs of regressors 0 .. i-1 (newest last) and its
    output is the forecast for step fh_i *)
 Theorem C05_dirrec_data_flow : forall (M : Type) (fit1 : list xrow -> list Z -> M)
-  (pred1 : M -> xrow -> Z) sc y wl fh, 1 <= wl -> wf_fh fh ->
-  let n := zlen y in
-  let nw := n_windows n wl fh in
+  (pred1 : M -> xrow -> Z) sc y zp wl fh, 1 <= wl -> wf_fh fh -> wl <= zlen (hd [] zp) ->
+  let yp := hd [] zp in
+  let n := zlen yp in
+  let nw := n_windows (zlen y) wl fh in
   let idx := zrange 0 (zlen fh) 1 in
   let ms := map (fun i => fit1 (dirrec_X sc y wl nw fh i) (train_t y wl nw (znth fh i))) idx in
-  if nw <=? 0 then dirrec_run M fit1 pred1 sc [y] wl fh = Err else
+  if nw <=? 0 then dirrec_run M fit1 pred1 sc [y] zp wl fh = Err else
   exists steps,
-    dirrec_run M fit1 pred1 sc [y] wl fh =
+    dirrec_run M fit1 pred1 sc [y] zp wl fh =
       Ok (mkRun (map (fun i => Fit1 (dirrec_X sc y wl nw fh i) (train_t y wl nw (znth fh i))) idx)
                 (combine idx (map fst steps)) (map snd steps)) /\
     zlen steps = zlen fh /\
     forall i m0, 0 <= i < zlen fh ->
       nth (Z.to_nat i) steps dflt =
-        let x := enc sc [zslice y (n - wl) n ++ firstn (Z.to_nat i) (map snd steps)] in
+        let x := enc sc [zslice yp (n - wl) n ++ firstn (Z.to_nat i) (map snd steps)] in
         (x, pred1 (nth (Z.to_nat i) ms m0) x).
 Proof. exact dirrec_flow. Qed.
 Print Assumptions C05_dirrec_data_flow.
@@ -185,9 +190,19 @@ Print Assumptions C05_dirrec_row_no_future.
 
 (* dirrec refuses exogenous data (NotImplementedError in the source) *)
 Theorem C05_dirrec_rejects_exogenous : forall (M : Type) (fit1 : list xrow -> list Z -> M)
-  (pred1 : M -> xrow -> Z) sc y x xs wl fh, dirrec_run M fit1 pred1 sc (y :: x :: xs) wl fh = Err.
+  (pred1 : M -> xrow -> Z) sc y x xs zp wl fh,
+  dirrec_run M fit1 pred1 sc (y :: x :: xs) zp wl fh = Err.
 Proof. exact dirrec_rejects_exog. Qed.
 Print Assumptions C05_dirrec_rejects_exogenous.
+
+(* prediction-time data: update appends to every variable; with nothing appended it is the
+   training data itself *)
+Theorem C05_prediction_time_series : forall (zs news : list (list Z)),
+  length news = length zs ->
+  (forall (v : nat) d, (v < length zs)%nat -> nth v (extend zs news) d = nth v zs d ++ nth v news d) /\
+  (Forall (fun a => a = []) news -> extend zs news = zs).
+Proof. exact extend_spec. Qed.
+Print Assumptions C05_prediction_time_series.
 
 (* scitype inference: a sktime BaseRegressor is a time-series regressor even if it also is a
    sklearn RegressorMixin; otherwise a RegressorMixin is tabular; anything else is refused *)
